@@ -11,7 +11,8 @@
 From V Require Import lib.Base lib.Utf8 model.GoStrings model.Html model.HtmlUnescape model.Url model.UrlProc
      model.UrlSet model.TContext model.TSanitize model.TSanitizers.
 From V Require Import spec.HtmlSpec spec.WhatwgUrl spec.Srcset spec.SanitizerSpec spec.CodeContextSpec
-     spec.CodeContextPolicy proofs.CodeContextFacts.
+     spec.CodeContextPolicy proofs.CodeContextFacts proofs.LinkRelFacts.
+From V Require Import gen.GenPolicy.
 Local Open Scope N_scope.
 
 (* (a) "execution fails instead": each of the six typed-only sanitizers, at the head of any chain,
@@ -158,3 +159,23 @@ Theorem C02_urlset_decoded : forall v o,
          (candidates (html_unescape o)).
 Proof. exact urlset_chain_clean. Qed.
 Print Assumptions C02_urlset_decoded.
+
+(* (e) style-sheet links after the repair of D3: whenever the (normalised) rel attribute of a link
+   element has the value stylesheet among its values - whatever the other values are - the href is a
+   TrustedResourceURL-only context; the same when the link has no rel value at all; and a plain URL
+   is admitted only when there is at least one value and EVERY value is allow-listed *)
+Theorem C02_stylesheet_link_href : forall rel,
+  In (B "stylesheet") (fields rel) -> sc_for_attr_val (B "link") (B "href") rel = Some SC_TRU.
+Proof. exact stylesheet_link_href_is_tru_only. Qed.
+Print Assumptions C02_stylesheet_link_href.
+
+Theorem C02_bare_link_href : forall rel,
+  fields rel = [] -> sc_for_attr_val (B "link") (B "href") rel = Some SC_TRU.
+Proof. exact bare_link_href_is_tru_only. Qed.
+Print Assumptions C02_bare_link_href.
+
+Theorem C02_link_href_url_only_if_all_listed : forall rel,
+  sc_for_attr_val (B "link") (B "href") rel = Some SC_TRUOrURL ->
+  fields rel <> [] /\ forall v, In v (fields rel) -> mem_bytes v P_urlLinkRelVals = true.
+Proof. exact link_href_url_only_if_all_listed. Qed.
+Print Assumptions C02_link_href_url_only_if_all_listed.
